@@ -8,8 +8,13 @@ pub mod c07;
 pub mod c08;
 pub mod c09;
 pub mod c10;
+pub mod c11;
+pub mod c12;
 pub mod c13;
 pub mod c14;
+pub mod c15;
+pub mod c17;
+pub mod c18;
 pub mod c19;
 
 use crate::rt::{Args, Outcome, Report};
@@ -27,8 +32,13 @@ pub fn run(args: &Args, rep: &mut Report) -> Result<(), String> {
 		"C08" => c08::run(args, rep),
 		"C09" => c09::run(args, rep),
 		"C10" => c10::run(args, rep),
+		"C11" => c11::run(args, rep),
+		"C12" => c12::run(args, rep),
 		"C13" => c13::run(args, rep),
 		"C14" => c14::run(args, rep),
+		"C15" => c15::run(args, rep),
+		"C17" => c17::run(args, rep),
+		"C18" => c18::run(args, rep),
 		"C19" => c19::run(args, rep),
 		p => return Err(format!("unknown property {}", p)),
 	}
@@ -47,8 +57,13 @@ pub fn replay(args: &Args, part: &str, case: &Value) -> Result<Outcome, String> 
 		"C08" => c08::replay(args, part, case),
 		"C09" => c09::replay(args, part, case),
 		"C10" => c10::replay(args, part, case),
+		"C11" => c11::replay(args, part, case),
+		"C12" => c12::replay(args, part, case),
 		"C13" => c13::replay(args, part, case),
 		"C14" => c14::replay(args, part, case),
+		"C15" => c15::replay(args, part, case),
+		"C17" => c17::replay(args, part, case),
+		"C18" => c18::replay(args, part, case),
 		"C19" => c19::replay(args, part, case),
 		p => Err(format!("unknown property {}", p)),
 	}
